@@ -1,4 +1,5 @@
 import Driver.Proto
+import Driver.Kinds
 /-!
 # ivgdriver: reads one case per line on stdin, prints the model's observation per line.
 -/
@@ -50,6 +51,11 @@ def handle (line : String) : String :=
     | "enc" :: _ => runEnc body
     | "dec" :: hdr => runDec hdr body
     | "dvb" :: _ => runDvb body
+    | "dis" :: _ => runDis body
+    | "ren" :: hdr => runRen hdr body
+    | "fit" :: hdr => runFit hdr
+    | "gen" :: _ => runGen body
+    | "mdi" :: hdr => runMdi hdr body
     | _ => "BAD-KIND"
   | _ => "BAD-LINE"
 
